@@ -1,6 +1,86 @@
 import Infretis.Model.Proto
-open Infretis.Proto
+import Infretis.Model.Perm
+open Infretis Infretis.Proto Infretis.Perm
 
-def handle (_toks : List String) : String := "bad-op"
+/-- matrix token format: `R` followed by `R` length-prefixed rows of rationals -/
+def takeRows : Nat → List String → Option (Mat × List String)
+  | 0, rest => some ([], rest)
+  | k + 1, rest =>
+    match takeList parseRat? rest with
+    | none => none
+    | some (r, rest) =>
+      match takeRows k rest with
+      | none => none
+      | some (rs, rest) => some (r :: rs, rest)
+
+def takeMat : List String → Option (Mat × List String)
+  | [] => none
+  | n :: rest =>
+    match parseNat? n with
+    | none => none
+    | some k => takeRows k rest
+
+def showMat (M : Mat) : String :=
+  toString M.length ++ (M.foldl (fun acc r => acc ++ " " ++ showList showRat r) "")
+
+def showErr : Err → String
+  | .value => "err:value" | .type => "err:type" | .assert => "err:assert" | .key => "err:key" | .nan => "nan"
+
+def showRes : Res → String
+  | .ok P => "ok " ++ showMat P
+  | .monteCarlo d => "mc " ++ showList toString d
+  | .error e => showErr e
+
+def showBlocks : Blocks → String
+  | .single => "tuple"
+  | .list bs => showList (fun b => s!"{b.1},{b.2.1},{b.2.2}") bs
+
+def handle (toks : List String) : String :=
+  match toks with
+  | "spec" :: rest =>                      -- spec <locks> <W>  → probMatrix, or "perm0" if the idle permanent is 0
+    match takeList parseNat? rest with
+    | some (locks, rest) =>
+      match takeMat rest with
+      | some (W, []) =>
+        let lk : List Bool := locks.map (fun x => x == 1)
+        if permC (idle W lk) = 0 then "perm0" else "ok " ++ showMat (probMatrix W lk)
+      | _ => "bad-op"
+    | none => "bad-op"
+  | "perm" :: rest =>
+    match takeMat rest with
+    | some (W, []) => showRat (permC W)
+    | _ => "bad-op"
+  | "infretis" :: off :: rest =>           -- infretis <off> <locks> <W>
+    match parseNat? off, takeList parseNat? rest with
+    | some off, some (locks, rest) =>
+      match takeMat rest with
+      | some (W, []) =>
+        let lk : List Bool := locks.map (fun x => x == 1)
+        showRes (infRetis W lk off) ++ " | " ++ showList id (branches W lk off)
+      | _ => "bad-op"
+    | _, _ => "bad-op"
+  | "quick" :: rest =>
+    match takeMat rest with
+    | some (W, []) => "ok " ++ showMat (quickProb W)
+    | _ => "bad-op"
+  | "blocks" :: off :: rest =>
+    match parseNat? off, takeMat rest with
+    | some off, some (W, []) => showBlocks (findBlocks W off)
+    | _, _ => "bad-op"
+  | "permprob" :: rest =>
+    match takeMat rest with
+    | some (W, []) =>
+      match permanentProb W with
+      | .ok P => "ok " ++ showMat P
+      | .error e => showErr e
+    | _ => "bad-op"
+  | "glynn" :: rest =>
+    match takeMat rest with
+    | some (W, []) =>
+      match glynn W with
+      | .ok v => showRat v
+      | .error e => showErr e
+    | _ => "bad-op"
+  | _ => "bad-op"
 
 def main : IO Unit := mainWith handle
